@@ -11,12 +11,21 @@
      GMap None / Some m          nil / non-nil map whose key kind is String
      GMapBadKey n       a map with [n] entries whose key kind is not String
      GStruct fs         fields (name, (exported, (embedded, value))) in declaration order
-     GPtr None / Some g          nil pointer / pointer to g
+     GPtr None / Some g          nil pointer (to a type that is neither of the next line) / pointer to g
+     GNilPtrTo m        a nil pointer whose element type implements data.Marshaler with a value
+                        receiver (m = true) or is one of the eight data.Value types (m = false):
+                        Go puts the element type's value-receiver methods into the pointer's method set
      GIface None / Some g        an interface-typed slot (element, field, pointee) holding nil / g
-     GMarshal v         a value whose dynamic type implements data.Marshaler (value receiver);
-                        MarshalValue() returns v
+     GMarshal v u       a value whose dynamic type implements data.Marshaler (value receiver);
+                        MarshalValue() returns v; u is what reflection sees of the same value when the
+                        method is not consulted (its kind, fields, elements)
      GValue v           a value whose dynamic type is one of the data.Value types
      GUnsupported       any other kind (Chan, Func, Array, Complex, Uintptr, UnsafePointer)
+
+   REPAIR notes/pending/C20-uint64-float.diff: an unsigned integer above MaxInt64 becomes the Float
+   nearest to it (the pinned tree converts it with Int(v.Uint()), which wraps to a negative Int).
+   REPAIR notes/pending/C20-nil-marshaler.diff: a nil pointer that implements Marshaler is Null (the
+   pinned tree calls MarshalValue through it and panics).
 
    Identity of lists and maps: the model threads a counter of fresh ids; 0 is the identity of
    nil collections (data pointer 0) and 1 that of every empty non-nil list (make(List, 0)
@@ -38,13 +47,25 @@ Inductive goval :=
 | GMapBadKey (n : N)
 | GStruct (fs : list (bstr * (bool * (bool * goval))))
 | GPtr (p : option goval)
+| GNilPtrTo (marshaler : bool)
 | GIface (i : option goval)
-| GMarshal (v : value)
+| GMarshal (v : value) (under : goval)
 | GValue (v : value)
 | GUnsupported.
 
 Definition e_map_keys := Eval vm_compute in b "map keys must be strings".
 Definition e_unexpected_type := Eval vm_compute in b "unexpected data type".
+
+(* float64(u) for an unsigned integer 2^63 <= u < 2^64 (Go: conversion of an integer to a floating-point
+   type rounds to the nearest representable value, ties to even); float64 values are 2^11 apart there *)
+Definition float_of_big_uint (z : Z) : fl :=
+  let q := (z / 2048)%Z in
+  let r := (z mod 2048)%Z in
+  let q' := (if r <? 1024 then q else if 1024 <? r then q + 1 else if Z.even q then q else q + 1)%Z in
+  match q' with
+  | Zpos p => let '(m, e) := strip2 p 11 in FFin (Zpos m) e     (* q' * 2^11 with an odd mantissa *)
+  | _ => FZero false                                            (* z < 2^10: never asked *)
+  end.
 
 Definition nil_id : N := 0.
 Definition zerobase_id : N := 1.
@@ -89,7 +110,10 @@ Definition build_map (kvs : list (bstr * value)) : list (bstr * value) :=
             value-receiver methods, so a Marshaler is found; a data.Value is found too, but what
             is returned is the pointer itself, which is none of the eight value types
      CDeep  reached by the drilling loop (v = v.Elem()) through two or more pointers or a
-            pointer to an interface: the checks are not repeated *)
+            pointer to an interface: the checks are not repeated, the value is converted by its kind
+            (a Marshaler as the plain value it is; a data.Value by its underlying type: Int int64,
+            Float float64, String string, Bool bool, Null and Undefined struct{}, List []Value,
+            Map map[string]Value) *)
 Inductive cctx := CSlot | CPtr | CDeep.
 
 Section Convert.
@@ -101,7 +125,9 @@ Section Convert.
     | GNil => Ok (VNull, n)
     | GBool x => Ok (VBool x, n)
     | GInt _ z => Ok (VInt z, n)                   (* Int(v.Int()) *)
-    | GUint _ z => Ok (VInt (wrap64 z), n)         (* Int(v.Uint()): uint64 -> int64 conversion *)
+    | GUint _ z =>                                 (* REPAIR C20-uint64-float: u > MaxInt64 -> Float(u) *)
+        if (z <? two63)%Z then Ok (VInt z, n)
+        else Ok (VFloat (float_of_big_uint z), n)
     | GFloat _ f => Ok (VFloat f, n)               (* Float(v.Float()): float32 -> float64 is exact *)
     | GStr s => Ok (VStr s, n)
     | GTime s => Ok (VStr s, n)
@@ -127,8 +153,30 @@ Section Convert.
     | GPtr (Some g') => conv (match ctx with CSlot => CPtr | _ => CDeep end) g' n
     | GIface None => Ok (VNull, n)
     | GIface (Some g') => conv (match ctx with CSlot => CSlot | _ => CDeep end) g' n
-    | GMarshal v => match ctx with CSlot | CPtr => Ok (v, n) | CDeep => OutOfModel end
-    | GValue v => match ctx with CSlot => Ok (v, n) | _ => OutOfModel end
+    | GNilPtrTo true => Ok (VNull, n)
+        (* REPAIR C20-nil-marshaler: at the argument itself the nil *T IS a Marshaler; the pinned tree calls
+           MarshalValue through the nil pointer (a panic), the repaired one returns Null as for every nil pointer *)
+    | GNilPtrTo false =>
+        (* at the argument itself the nil *Int IS a data.Value and is returned as it is: none of the
+           eight value types (OutOfModel, see ptr_to_value) *)
+        match ctx with CSlot => OutOfModel | _ => Ok (VNull, n) end
+    | GMarshal v u => match ctx with CSlot | CPtr => Ok (v, n) | CDeep => conv CDeep u n end
+    | GValue v =>
+        match ctx with
+        | CSlot => Ok (v, n)
+        | CPtr => OutOfModel      (* the pointer itself is returned: a data.Value by its method set, none of the eight types *)
+        | CDeep =>
+            match v with
+            | VNull | VUndef => Ok (VMap n [], n + 1)            (* struct{}: StructOptions.Data makes an empty map *)
+            | VList id l =>
+                match l with
+                | [] => Ok (VList (if id =? nil_id then nil_id else zerobase_id) [], n)   (* v.IsNil(): List(nil); else make(List, 0) *)
+                | _ :: _ => Ok (VList n l, n + 1)                 (* the elements are data.Values: returned as they are *)
+                end
+            | VMap _ m => Ok (VMap n m, n + 1)                    (* a new map with the same entries *)
+            | _ => Ok (v, n)                                      (* Int, Float, String, Bool: by kind, the same value *)
+            end
+        end
     | GUnsupported => Err e_unexpected_type
     end.
 End Convert.
@@ -147,7 +195,8 @@ Fixpoint goval_max_id (g : goval) : N :=
   | GMap (Some m) => fold_right (fun kx acc => N.max (goval_max_id (snd kx)) acc) 0 m
   | GStruct fs => fold_right (fun fd acc => N.max (goval_max_id (snd (snd (snd fd)))) acc) 0 fs
   | GPtr (Some g') | GIface (Some g') => goval_max_id g'
-  | GMarshal v | GValue v => value_max_id v
+  | GMarshal v u => N.max (value_max_id v) (goval_max_id u)
+  | GValue v => value_max_id v
   | _ => 0
   end.
 
